@@ -13,7 +13,14 @@ Local Open Scope N_scope.
    and prepend ([req_dom]): the text of the Location is the template with $host := the
    request's host and $path := the request path exactly as written on the request line, after
    strip and prepend, with the request's query iff the template has none
-   ([expected_location] is defined on the request line, without Path/RawPath). *)
+   ([expected_location] is defined on the request line, without Path/RawPath).
+   Reading of the clause "carrying the request's query when the target has none": $path stands
+   for the request URI (documentation: "to include the original request URI ... append $path");
+   a template WITHOUT $path is sent as it is and does not carry the request's query - this is
+   what the repository's own TestTarget_BuildRedirectURL pins ("/?aaa=1" -> "http://bar.com/").
+   Outside [req_dom]: finding region 6 (C13_domain_is_complement_of_region_6), raw non-ASCII
+   bytes, hosts that need escaping, and encodings of ! ' ( ) * [ ]
+   (C13_encoded_sub_delim_returned_decoded). *)
 Theorem C13_location_spec : forall t wire q,
   tmpl_dom t = true -> req_dom t wire q = true ->
   set_path wire = Some (q_path q, q_rawpath q) ->
@@ -28,6 +35,63 @@ Theorem C13_location_spec_nonvacuous :
   /\ expected_location t_slash (bs "/a%2Fb") q_enc_slash = bs "https://foo.com/a%2Fb".
 Proof. exact location_spec_nonvacuous. Qed.
 Print Assumptions C13_location_spec_nonvacuous.
+
+(* a member of the domain with strip, prepend, query, $host inside the host, text after $path,
+   an encoded reserved byte and raw sub-delims, and its answer *)
+Theorem C13_location_spec_full_example :
+  tmpl_dom t_full = true /\ req_dom t_full (bs "/foo/a%2Fb/(x)!") q_full = true
+  /\ set_path (bs "/foo/a%2Fb/(x)!") = Some (q_path q_full, q_rawpath q_full)
+  /\ expected_location t_full (bs "/foo/a%2Fb/(x)!") q_full = bs "https://www.foo.com:8080/bbb/pre/a%2Fb/(x)!/tail?k=v&x=%20"
+  /\ handle q_full [None; Some t_full] = RRedirect 307%Z (bs "https://www.foo.com:8080/bbb/pre/a%2Fb/(x)!/tail?k=v&x=%20").
+Proof. exact location_spec_full_example. Qed.
+Print Assumptions C13_location_spec_full_example.
+
+(* THE RESPONSE of a redirect route, composed from the option text to the header: the status is
+   the 3xx code the option text denotes, the Location header (after http.Redirect's
+   hexEscapeNonASCII) is [expected_location] of THIS request, and no upstream is called *)
+Theorem C13_response_location : forall q cands t ou wire,
+  lookup q cands = Some (t, ou) -> is_redirect t = true -> code_ok (t_code t) = true ->
+  tmpl_dom t = true -> req_dom t wire q = true -> set_path wire = Some (q_path q, q_rawpath q) ->
+  handle q cands = RRedirect (t_code t) (expected_location t wire q) /\ upstream_calls (handle q cands) = O.
+Proof. exact response_location. Qed.
+Print Assumptions C13_response_location.
+Theorem C13_response_from_option : forall q cands t ou wire opt,
+  lookup q cands = Some (t, ou) -> is_redirect t = true -> t_code t = redirect_code opt ->
+  tmpl_dom t = true -> req_dom t wire q = true -> set_path wire = Some (q_path q, q_rawpath q) ->
+  handle q cands = RRedirect (redirect_code opt) (expected_location t wire q)
+  /\ (300 <= redirect_code opt <= 399)%Z /\ upstream_calls (handle q cands) = O.
+Proof. exact response_from_option. Qed.
+Print Assumptions C13_response_from_option.
+
+(* the domain of C13_location_spec inside [req_dom0] (unescaped path bytes incl. raw ! ' ( ) * [ ]
+   and %XY triplets other than encodings of those seven) is exactly the complement of finding
+   region 6 *)
+Theorem C13_domain_is_complement_of_region_6 : forall t wire q,
+  req_dom0 wire q = true -> plain (t_strip t) = true -> set_path wire = Some (q_path q, q_rawpath q) ->
+  req_dom t wire q = negb (strip_decoded_only t wire q).
+Proof. exact req_dom_split. Qed.
+Print Assumptions C13_domain_is_complement_of_region_6.
+(* finding F-C13-6 (open): a strip prefix that matches only after percent-decoding (the route
+   matches on the decoded path): the rest of the path loses its encoding.  The specification
+   there is [expected_location_dec]: strip removes the shortest prefix as written that decodes
+   to the strip text. *)
+Theorem C13_strip_decoded_only_refuted :
+  exists t wire q, tmpl_dom t = true /\ req_dom0 wire q = true
+    /\ set_path wire = Some (q_path q, q_rawpath q)
+    /\ strip_decoded_only t wire q = true
+    /\ url_string (build_redirect_url t q) = bs "https://foo.com/a/b"
+    /\ expected_location_dec t wire q = bs "https://foo.com/a%2Fb".
+Proof. exact strip_decoded_only_refuted. Qed.
+Print Assumptions C13_strip_decoded_only_refuted.
+(* outside the domain by net/url's own reading of paths (recorded as an assumption, not a
+   finding): an upper-case-hex encoding of one of ! ' ( ) * [ ] in an otherwise default-encoded
+   path comes back decoded *)
+Theorem C13_encoded_sub_delim_returned_decoded :
+  set_path (bs "/a%21b") = Some (bs "/a!b", [])
+  /\ req_dom t_slash (bs "/a%21b") (mkReq ex_host (bs "/a!b") [] [] [] false) = false
+  /\ url_string (build_redirect_url t_slash (mkReq ex_host (bs "/a!b") [] [] [] false)) = bs "https://foo.com/a!b".
+Proof. exact encoded_sub_delim_returned_decoded. Qed.
+Print Assumptions C13_encoded_sub_delim_returned_decoded.
 
 (* finding F-C13-1, repaired in /repo by fix e4368b6: BuildRedirectURL before the repair
    ([build_redirect_url_unrepaired]) left RawPath empty for $path glued to the host:
@@ -59,8 +123,11 @@ Theorem C13_code_range_refuted :
 Proof. exact code_range_refuted. Qed.
 Print Assumptions C13_code_range_refuted.
 
-(* a request that Lookup answers with a redirect target never reaches the upstream; with a
-   3xx code the response is that code and the Location built from THIS request *)
+(* a request that Lookup answers with a redirect target never reaches the upstream (in the model:
+   by the shape of [serve]; on the real code: the observed hit counter and the counting listener
+   of the harness); with a 3xx code the response is that code and the Location built from THIS
+   request.  The order "403 / 401 before the 3xx" (access and auth checks precede the redirect
+   branch) is C12's: Model/Access.v serve_http with ERedirect. *)
 Theorem C13_no_upstream_on_redirect : forall q cands t ou,
   lookup q cands = Some (t, ou) -> is_redirect t = true ->
   upstream_calls (handle q cands) = O
@@ -81,6 +148,23 @@ Theorem C13_self_redirect_never_returned : forall q cands t,
   chosen_target (lookup q cands) = Some t -> is_redirect t = true -> points_back (build_redirect_url t q) q = false.
 Proof. exact self_redirect_never_returned. Qed.
 Print Assumptions C13_self_redirect_never_returned.
+(* [ref_lookup] / [points_back] read "own scheme, host and path" as the code does (host compared
+   byte for byte).  Against an independent reading (host case-insensitive, the scheme's default
+   port optional: [points_back_norm]) the test is SOUND - whatever Lookup skips does point back
+   at the request - but not complete: a request that spells the template's host differently
+   (FOO.com, foo.com:80) is sent to the template's spelling once and the follow-up request is
+   skipped; one extra hop, no loop (recorded as an assumption). *)
+Theorem C13_self_test_sound : forall u q, is_self u q = true -> points_back_norm u q = true.
+Proof. exact is_self_sound_norm. Qed.
+Print Assumptions C13_self_test_sound.
+Theorem C13_host_spelling_one_hop :
+  handle (q_host_x "FOO.com") [Some t_back; Some t_upstream] = RRedirect 301%Z (bs "http://foo.com/x")
+  /\ points_back_norm (build_redirect_url t_back (q_host_x "FOO.com")) (q_host_x "FOO.com") = true
+  /\ handle (q_host_x "foo.com:80") [Some t_back; Some t_upstream] = RRedirect 301%Z (bs "http://foo.com/x")
+  /\ points_back_norm (build_redirect_url t_back (q_host_x "foo.com:80")) (q_host_x "foo.com:80") = true
+  /\ handle (q_host_x "foo.com") [Some t_back; Some t_upstream] = RProxy 1.
+Proof. exact host_spelling_one_hop. Qed.
+Print Assumptions C13_host_spelling_one_hop.
 (* finding F-C13-3, repaired in /repo by fix 4431a54: the loop before the repair
    ([lookup_unrepaired]) returned the skipped redirect when it belonged to the last host *)
 Theorem C13_self_redirect_last_host_refuted :
@@ -100,9 +184,12 @@ Theorem C13_self_redirect_without_xfp_refuted :
 Proof. exact self_redirect_without_xfp_refuted. Qed.
 Print Assumptions C13_self_redirect_without_xfp_refuted.
 
-(* request header fields: the answer depends on them only through X-Forwarded-Proto (and Host);
-   Upgrade / Accept / Connection / anything else never change it, and a redirect route is
-   answered with its 3xx and the Location of this request whatever they are *)
+(* request header fields (MECHANISM LEMMAS: true by construction of the model, whose serve
+   function receives the headers and does not consult them; that the real ServeHTTP answers the
+   redirect BEFORE it dispatches on Upgrade / Accept is observed by the harness class
+   serve-headers-socket, not proved): the answer depends on the headers only through
+   X-Forwarded-Proto (and Host), and a redirect route is answered with its 3xx and the Location
+   of this request whatever they are *)
 Theorem C13_headers_irrelevant : forall hs hs' host path rawpath query tls cands,
   header_get hs h_xfp = header_get hs' h_xfp ->
   handle_full hs host path rawpath query tls cands = handle_full hs' host path rawpath query tls cands.
@@ -116,7 +203,11 @@ Theorem C13_redirect_whatever_headers : forall hs host path rawpath query tls ca
 Proof. exact redirect_whatever_headers. Qed.
 Print Assumptions C13_redirect_whatever_headers.
 
-(* simultaneous requests.  Lookup and the rest of ServeHTTP are two atomic actions per request.
+(* simultaneous requests (since fix ddf101c the model has no shared state left, so this holds by
+   construction of [step]; its content is the modelling claim "what Lookup returned is the only
+   state a request carries into its serve step", which the harness class forced-interleaving
+   exercises on the real HTTPProxy with 2-4 requests and random schedules).
+   Lookup and the rest of ServeHTTP are two atomic actions per request.
    For EVERY interleaving of these actions, of ANY number of requests (any list [reqs], any
    schedule, requests repeated or served several times included): every response that is sent
    is the answer of its own request, [own reqs i] = [handle q_i cands_i], a function of that
